@@ -24,7 +24,9 @@ LEVEL_TEXT = ("Machine-checked proof (Coq, closed under the global context) over
               "of such requests interleaved with arbitrary other changes to the file equals the same sequence of os.* "
               "calls, and that on every kind of target (regular file - also through a symlink -, directory, missing "
               "name) the new state and the status of each request equal those of the os.* call, success being reported "
-              "only when every requested step was applied; flag bits and the list of steps (flag tested, call, order, open mode) are regenerated from "
+              "only when every requested step was applied, and that in a session's handle table a new handle name is fresh "
+              "and a live handle keeps naming the file it was opened on whatever is opened or closed meanwhile; flag "
+              "bits, the handle-table code (per-instance counter and dicts) and the list of steps (flag tested, call, order, open mode) are regenerated from "
               "paramiko's AST each run (gen/c31.py) and proved equal to the modelled ones; the model is "
               "tied to sftp_server.py/sftp_client.py/sftp_file.py by running the real client against the real server "
               "on a temp dir - single requests and sequences of 2-4 requests on one open handle / path with writes in "
@@ -726,8 +728,18 @@ def multi_snapshot(base):
     for i in range(NFILES):
         p = os.path.join(base, "n%d" % i)
         st = os.stat(p)
-        with open(p, "rb") as fh:
-            data = fh.read()
+        fd = os.open(p, os.O_RDONLY | getattr(os, "O_NOATIME", 0))      # looking must not touch atime
+        try:
+            data = b""
+            while True:
+                blk = os.read(fd, 65536)
+                if not blk:
+                    break
+                data += blk
+        finally:
+            os.close(fd)
+        if not hasattr(os, "O_NOATIME"):
+            os.utime(p, ns=(st.st_atime_ns, st.st_mtime_ns))
         out.append({"mode": st.st_mode & 0o7777, "uid": st.st_uid, "gid": st.st_gid, "atime": int(st.st_atime),
                     "mtime": int(st.st_mtime), "data": data})
     return out
@@ -878,20 +890,24 @@ def run(ctx):
         # several handles / sessions alive at once (second session on the same transport, third on its own)
         rig2 = Rig(ctx.repo, root)
         extra.append(rig2)
-        sessions = {0: rig.sftp, 2: rig2.sftp}
-
-        def rigs(n):
-            if n not in sessions:
-                import paramiko
-                sessions[n] = paramiko.SFTPClient.from_transport(rig.tc)
-                extra.append(sessions[n])
-            return sessions[n]
+        import paramiko
 
         for i in range(60 * scale):
             case = gen_multi_case(rng, root_user, forced={0: "reuse", 1: "sessions", 2: "transports"}.get(i))
             ctx.count(repr(case["steps"]) + repr([f["data"] for f in case["files"]]), nontrivial=True,
                       kind="multi-handle")
-            execute_multi(ctx, rigs, root, case)
+            # fresh sessions every time (their handle counters all start over): two channels on one
+            # transport, a third on its own transport
+            sessions = {0: paramiko.SFTPClient.from_transport(rig.tc), 1: paramiko.SFTPClient.from_transport(rig.tc),
+                        2: paramiko.SFTPClient.from_transport(rig2.tc)}
+            try:
+                execute_multi(ctx, lambda n: sessions[n], root, case)
+            finally:
+                for c in sessions.values():
+                    try:
+                        c.close()
+                    except Exception:
+                        pass
             if i == 0:
                 ctx.sample({"multi_handle_steps": case["steps"]})
         # larger files: oracle only
